@@ -248,6 +248,87 @@ Theorem C15_channel_ni_curl_refuted_cookie_jar : exists k k',
 Proof. exists (w_kwargs_cookie 65), (w_kwargs_cookie 66). exact curl_leaks_cookie. Qed.
 Print Assumptions C15_channel_ni_curl_refuted_cookie_jar.
 
+(* ---- order of sanitization and request preparation (seed C15_e): prepare() derives an Authorization header from the
+   userinfo of the URL it is given (requests prepare_auth / get_auth_from_url) ---- *)
+
+(* the code sanitises the URL first: whatever the userinfo, prepare can only read the marker *)
+Theorem C15_channel_curl_userinfo_not_derived : forall cfg ui host k,
+  no_at host = true -> u_netloc (k_url k) = ui ++ AT :: host -> k_auth k = None ->
+  view_headers (curl_view true cfg k) =
+    requests_prepare_core (sanitize_sdict cfg (k_headers k)) (sanitize_sdict cfg (k_cookies k)) (userinfo_auth (repl cfg)).
+Proof. exact curl_userinfo_not_derived. Qed.
+Print Assumptions C15_channel_curl_userinfo_not_derived.
+
+(* ... and from a marker without a colon (the default one) nothing is derived at all *)
+Theorem C15_channel_curl_marker_derives_nothing : forall cfg ui host k,
+  no_at host = true -> u_netloc (k_url k) = ui ++ AT :: host -> k_auth k = None -> marker_derives_nothing cfg = true ->
+  view_headers (curl_view true cfg k) =
+    requests_prepare_core (sanitize_sdict cfg (k_headers k)) (sanitize_sdict cfg (k_cookies k)) None.
+Proof. exact curl_marker_derives_nothing. Qed.
+Print Assumptions C15_channel_curl_marker_derives_nothing.
+
+(* noninterference in the userinfo, no region: no function of the userinfo reaches the view (structured or rendered,
+   i.e. with the base64 of the Basic value computed) - for any two userinfos, any configuration, any case *)
+Theorem C15_channel_ni_curl_userinfo : forall cfg ui ui' host k, no_at host = true ->
+  curl_view true cfg (with_netloc (ui ++ AT :: host) k) = curl_view true cfg (with_netloc (ui' ++ AT :: host) k).
+Proof. exact curl_ni_userinfo. Qed.
+Print Assumptions C15_channel_ni_curl_userinfo.
+
+Theorem C15_channel_ni_curl_userinfo_rendered : forall cfg ui ui' host k, no_at host = true ->
+  rendered_headers (view_headers (curl_view true cfg (with_netloc (ui ++ AT :: host) k))) =
+  rendered_headers (view_headers (curl_view true cfg (with_netloc (ui' ++ AT :: host) k))).
+Proof. exact curl_ni_userinfo_rendered. Qed.
+Print Assumptions C15_channel_ni_curl_userinfo_rendered.
+
+(* structural: every header of the code sample whose name is credential-bearing carries exactly the marker
+   (regions: no request auth object = finding F2, no Cookie header built from the jar = finding F3, marker without colon) *)
+Theorem C15_channel_curl_headers_redacted_partial : forall cfg k,
+  no_request_auth k = true -> no_cookie_jar_header cfg k = true -> marker_derives_nothing cfg = true ->
+  headers_redacted cfg (view_headers (curl_view true cfg k)) = true.
+Proof. exact curl_headers_redacted. Qed.
+Print Assumptions C15_channel_curl_headers_redacted_partial.
+
+(* SENTINEL (seeded order: prepare, then sanitize the URL): for EVERY user:password the view carries the Basic value
+   derived from it - whatever the sanitised headers said - while its URL shows the marker *)
+Theorem C15_channel_curl_prepare_first_derives_authorization : forall enc cfg u p host k,
+  no_at host = true -> mem COLON u = false -> (u, p) <> ([], []) ->
+  u_netloc (k_url k) = (u ++ COLON :: p) ++ AT :: host -> k_auth k = None ->
+  In (s_Authorization, HBasic u p) (view_headers (curl_view_prepare_first enc true cfg k)) /\
+  u_netloc (view_url (curl_view_prepare_first enc true cfg k)) = repl cfg ++ AT :: host.
+Proof. exact prepare_first_derives_authorization. Qed.
+Print Assumptions C15_channel_curl_prepare_first_derives_authorization.
+
+(* ... refuted by witness: http://u:A@h/ vs http://u:B@h/ with Authorization: Bearer x - same public projection, inside
+   both regions of the partial theorem, same view under the current order (Authorization: [Filtered]); under the seeded
+   order the same URL ([Filtered]@h) but Authorization: Basic dTpB vs Basic dTpC *)
+Theorem C15_channel_ni_curl_prepare_first_refuted : exists k k',
+  kwargs_public default_config k = kwargs_public default_config k' /\
+  no_request_auth k = true /\ no_request_auth k' = true /\
+  cookies_covered default_config k = true /\ cookies_covered default_config k' = true /\
+  curl_view true default_config k = curl_view true default_config k' /\
+  rendered_headers (view_headers (curl_view true default_config k)) = [(s_Authorization, default_repl)] /\
+  view_url (curl_view_prepare_first no_params_enc true default_config k) =
+    view_url (curl_view_prepare_first no_params_enc true default_config k') /\
+  u_netloc (view_url (curl_view_prepare_first no_params_enc true default_config k)) = default_repl ++ [64;104]%N /\
+  rendered_headers (view_headers (curl_view_prepare_first no_params_enc true default_config k)) =
+    [(s_Authorization, [66;97;115;105;99;32;100;84;112;66]%N)] /\
+  rendered_headers (view_headers (curl_view_prepare_first no_params_enc true default_config k')) =
+    [(s_Authorization, [66;97;115;105;99;32;100;84;112;67]%N)].
+Proof. exists (w_kwargs_userinfo 65), (w_kwargs_userinfo 66). exact prepare_first_leaks. Qed.
+Print Assumptions C15_channel_ni_curl_prepare_first_refuted.
+
+(* derived encodings: base64 is invertible on byte strings, so the Basic value IS the user:password text - an artefact that
+   shows it shows the secret, although the raw text occurs nowhere *)
+Theorem C15_b64_roundtrip : forall l, is_bytes l = true -> b64_decode (b64 l) = Some l.
+Proof. exact b64_roundtrip. Qed.
+Print Assumptions C15_b64_roundtrip.
+
+Theorem C15_basic_value_determines_credentials : forall u p u' p',
+  is_bytes (u ++ [COLON] ++ p) = true -> is_bytes (u' ++ [COLON] ++ p') = true ->
+  basic_value u p = basic_value u' p' -> u ++ [COLON] ++ p = u' ++ [COLON] ++ p'.
+Proof. exact basic_value_determines_credentials. Qed.
+Print Assumptions C15_basic_value_determines_credentials.
+
 (* JUnit failure message / console FAILURES section = open text + curl sample *)
 Theorem C15_channel_ni_junit_partial : forall cfg f k k',
   kwargs_public cfg k = kwargs_public cfg k' ->
